@@ -17,7 +17,7 @@ PLAN = dict(
     runs=[
         dict(name="conc", run="^(TestConcWellFormed|TestConcCountingWriter)$", checks=(40, 2000), shards=(2, 8), timeout=(400, 3600), race=True),
         dict(name="wf", run="^(TestPropWellFormed|TestCorpus)$", checks=(1500, 200000), shards=(2, 16), timeout=(300, 3600)),
-        dict(name="aligned", run="^(TestAligned|TestOptionalParts)$", timeout=(300, 900)),
+        dict(name="aligned", run="^(TestAligned|TestOptionalParts|TestShapeSweep)$", timeout=(300, 900)),
         dict(name="cw", run="^TestPropCountingWriter$", checks=(3000, 300000), shards=(1, 4), timeout=(300, 3600)),
     ],
     require=[("wellformed", "sink:plain"), ("wellformed", "sink:readerfrom"), ("wellformed", "sink:counting-prewritten"), ("wellformed", "extra-sections-2"), ("wellformed", "b1-without-primary-url"), ("countingwriter", "sink-failed"),
